@@ -924,6 +924,10 @@ class APIConnection:
         try:
             # MESSAGE_NUMBER_TO_PROTO is 0-indexed
             # but the message type is 1-indexed
+            if msg_type_proto < 1:
+                # 0 is not a valid message type and would
+                # wrap around to the last message type
+                raise IndexError(msg_type_proto)
             klass = MESSAGE_NUMBER_TO_PROTO[msg_type_proto - 1]
             msg: message.Message = klass()
             # MergeFromString instead of ParseFromString since
